@@ -508,3 +508,39 @@ def corrupt(traces: List[List[Dict[str, Any]]], seed: int) -> List[Tuple[List[Di
         dup.insert(k + 1, dict(dup[k]))
         out.append((dup, "started_twice"))
     return out
+
+
+def rerun_schedule(prog: Dict[str, Any], variant: str, decisions: List[int]) -> List[Dict[str, Any]]:
+    """Re-execute one concurrent program on the tree under test, following a recorded list of scheduling decisions."""
+    pos = [0]
+
+    def choose(en, cur, can_preempt):
+        i = pos[0]
+        pos[0] += 1
+        if i < len(decisions) and decisions[i] in en:
+            return decisions[i]
+        return cur if cur in en else en[0]
+    out: Dict[str, Any] = {}
+
+    def build(ds):
+        def log(**ev):
+            t = ds.me()
+            ev["th"] = int(t.name[1:]) if t is not None else 0
+            ev["clk"] = _tick(ds.clock)
+            ds.trace.append(ev)
+        rig = Rig(_conc_scheds(variant), lambda: _tick(ds.clock), shims.sleep, log)
+        rig.body = {i + 1: b for i, b in enumerate(prog["body"])}
+        for k, cmds in enumerate(prog["top"], start=1):
+            if cmds:
+                ds.spawn(f"T{k}", lambda cmds=cmds: [rig.do(c) for c in cmds])
+    with shims.patched(extra=DET_PATCH), _fresh_singleton_trampoline():
+        ds = shims.run_execution(build, choose, focus=FOCUS, max_steps=6000)
+    tr = list(ds.trace)
+    if ds.deadlocked:
+        tr.append({"e": "deadlock", "th": 0, "clk": _tick(ds.clock)})
+    if ds.step_limit_hit:
+        tr.append({"e": "steplimit", "th": 0, "clk": _tick(ds.clock)})
+    for t in ds.threads:
+        if t.exc is not None:
+            tr.append({"e": "exc", "th": 0, "clk": _tick(ds.clock), "what": repr(t.exc)[:200]})
+    return tr
